@@ -7,8 +7,9 @@ HERE = os.path.dirname(os.path.dirname(os.path.abspath(__file__)))
 PY = '/venv/bin/python'
 
 A_TEXT = ('explicit-state breadth-first search over the real Task/WBS objects of small closed universes '
-          '(2-4 tasks, 0-2 WBS, duplicate ids), every public mutator with every argument combination applied in every '
-          'reachable state; each edge is executed on the implementation and on a reference semantics in lock-step')
+          '(2-4 tasks, 0-2 WBS, falsy / look-alike / repeated ids; 5-task and look-alike universes from directly built start states), every public '
+          'mutator with every argument combination applied in every reachable state, facades held across one or two operations; each edge is '
+          'executed on the implementation and on a reference semantics in lock-step')
 A_NOTE = ('trusted: the harness\'s generic __dict__ snapshot/restore (self-checked on every expansion), the reference semantics '
           'of DESIGN 4.4, small-scope bounds (<=4 tasks, <=2 WBS, list arguments of <=2 elements)')
 
@@ -22,7 +23,8 @@ CHECKS = {
 
 B_TEXT = ('direct stateless exploration of the implementation: every input of the finite scenario layers (all hierarchy shapes '
           'with <=4 tasks x all link placements x attribute/calendar/start menus) is scheduled under a virtual clock, and the '
-          'environment (clock reads, lazy calendar answers) is explored as a deviation-bounded choice tree; oracle: ')
+          'environment (clock reads, lazy calendar answers) is explored as a deviation-bounded choice tree; call histories (calendar edited / '
+          'another plan scheduled first with the same scheduler or Resource objects) are enumerated; oracle: ')
 B_NOTE = ('trusted: the harness-side clock seam (canary-checked each run) and calendar proxies, the oracle clauses of DESIGN '
           'section 7, dyadic value alphabet compared exactly (decimal layer with 1e-9 / 1 s tolerance)')
 B_TECH = 'bounded-exhaustive stateless exploration of the scheduler: input layers x deviation-bounded environment choice tree'
@@ -48,7 +50,7 @@ CHECKS.update({
     'C17': ('exploration', 'Engine C', 'all calendar expressions up to nesting depth 1 (quick) / 2 (thorough) over weekly, dated, fixed calendars and scalars x 48 instants against a reference evaluator; availability search over starts x directions x horizons; 13 illegal definitions must raise RuntimeError', C_NOTE, C_TECH, '6, 7 C17'),
     'C18': ('exploration', 'Engine C', 'every single filter (all suffixes x attributes x value alphabet) and pairs of filters on 4-task populations with present/None/absent attributes against a reference predicate; bulk assignment and remove_all (WBS, roots, children) touch exactly the matches', C_NOTE, C_TECH, '6, 7 C18'),
     'C19': ('exploration', 'Engine C', 'forward-scheduled WBSs (all shapes <=3 tasks) rendered by MermaidGantt, MermaidNetwork and DhtmlxGantt with an adversarial name on each task in turn; the documents are parsed by consumer-side parsers (html.parser, gantt line grammar, flowchart tokeniser, JSON) and compared with the tasks and with the rendering under a harmless name', C_NOTE, C_TECH, '6, 7 C19'),
-    'C20': ('exploration', 'Engine C', 'text sheets of all hierarchies <=4 tasks x names/values of varying length x field selections x children on/off x themes x entry points, parsed back into cells by splitting on colour escapes; usage tables of scheduled inputs', C_NOTE, C_TECH, '6, 7 C20'),
+    'C20': ('exploration', 'Engine C', 'text sheets of all hierarchies <=4 tasks x names/values of varying length x field selections x children on/off x themes x entry points, colour codes stripped and the columns recovered from the header line, cells compared with a reference; lists and tasks re-rendered after edits; usage tables of scheduled inputs', C_NOTE, C_TECH, '6, 7 C20'),
 })
 
 ENGINES = [
@@ -56,7 +58,7 @@ ENGINES = [
      'kind_free_text': 'explicit-state BFS over the real mutation API with lock-step reference semantics'},
     {'name': 'Engine B', 'path': 'vf/sched', 'serves_properties': ['C02', 'C03', 'C04', 'C06', 'C07', 'C08', 'C09', 'C14'],
      'kind_free_text': 'bounded-exhaustive scheduler input layers x deviation-bounded environment choice tree (virtual clock, lazy calendars)'},
-    {'name': 'Engine C', 'path': 'vf/pure', 'serves_properties': ['C12', 'C13', 'C17', 'C18', 'C19', 'C20'],
+    {'name': 'Engine C', 'path': 'vf/props', 'serves_properties': ['C12', 'C13', 'C17', 'C18', 'C19', 'C20'],
      'kind_free_text': 'bounded-exhaustive differential enumeration of pure functions against reference models'},
 ]
 
